@@ -9,6 +9,7 @@ import (
 	"fmt"
 	"time"
 
+	"github.com/fatedier/frp/pkg/msg"
 	"verifharness/hx"
 )
 
@@ -224,14 +225,30 @@ func (s *sched) freshLogin(rid string) int {
 
 // regSend .. regAdd: the three windows of RegisterProxy
 func (s *sched) regSend(sid, name int) (att int, passedExist bool) {
+	return s.regSendK(sid, name, false)
+}
+
+func (s *sched) regSendK(sid, name int, stcp bool) (att int, passedExist bool) {
 	w := s.w
 	_, present := w.s.Svc.VerifC12Names()[pname(name)]
-	att, port, _ := w.newPort(-1)
-	if err := w.sendNewProxy(sid, name, port, true); err != nil {
+	var err error
+	typ := "tcpT"
+	if stcp {
+		att = len(w.ports)
+		w.ports = append(w.ports, 0)
+		w.stcpName = append(w.stcpName, name)
+		typ = "stcpT"
+		err = w.peers[sid].Send(&msg.NewProxy{ProxyName: pname(name), ProxyType: "stcp", Sk: stcpKey})
+	} else {
+		var port int
+		att, port, _ = w.newPort(-1)
+		err = w.sendNewProxy(sid, name, port, true)
+	}
+	if err != nil {
 		w.fail("sched-send-failed", err.Error())
 		panic(abortCase{})
 	}
-	w.item(fmt.Sprintf("IAct (AReq %d (RNew %d %d 1%%Z true true))", sid, name, att))
+	w.item(fmt.Sprintf("IAct (AReq %d (RNew %d %d %s true true))", sid, name, att, typ))
 	w.item(fmt.Sprintf("IRun (TSess %d)", sid))
 	if present {
 		// the Exist check must refuse: the answer is on its way
@@ -542,7 +559,7 @@ var schedules = []schedule{
 		if a < 0 || b < 0 {
 			return
 		}
-		rounds := 120
+		rounds := 60
 		for r := 0; r < rounds && len(w.fails) == 0; r++ {
 			k := g.Intn(3)
 			gc.armSpin("ctl.regproxy.after_run")
@@ -565,8 +582,8 @@ var schedules = []schedule{
 				w.fail("sched-no-newproxyresp", fmt.Sprintf("%v %v", errA, errB))
 				return
 			}
-			w.item(fmt.Sprintf("IAct (AReq %d (RNew %d %d 1%%Z true true))", a, k, attA))
-			w.item(fmt.Sprintf("IAct (AReq %d (RNew %d %d 1%%Z true true))", b, k, attB))
+			w.item(fmt.Sprintf("IAct (AReq %d (RNew %d %d tcpT true true))", a, k, attA))
+			w.item(fmt.Sprintf("IAct (AReq %d (RNew %d %d tcpT true true))", b, k, attB))
 			for _, x := range []int{a, a, b, b} {
 				w.item(fmt.Sprintf("IRun (TSess %d)", x))
 			}
@@ -587,6 +604,58 @@ var schedules = []schedule{
 			w.observe()
 			w.seqClose(first, k)
 			w.ports[attA], w.ports[attB] = 0, 0 // observed closed; stop probing them
+		}
+	}},
+	{"stcp-duplicate-passes-exist", func(g *hx.Gen, w *world, gc *gateCtl) {
+		// visitor listeners are keyed and closed BY NAME: a duplicate that passed Exist fails in Run
+		// ("listener exists") and must leave the incumbent's listener alone
+		s := newSched(w, gc)
+		a := s.freshLogin("")
+		b := s.freshLogin("")
+		k := g.Intn(len(oddNames))
+		attA, okA := s.regSendK(a, k, true)
+		attB, okB := s.regSendK(b, k, true)
+		if !okA || !okB {
+			w.fail("sched-script", "free name refused")
+			return
+		}
+		s.regRun(a, k) // a's listener exists now
+		w.stcpCur[k] = attA
+		addFirst := g.Intn(2) == 0
+		if addFirst {
+			s.expectClass(s.regAdd(a, k, attA), 0, "incumbent-registration")
+			w.observe()
+		}
+		// b's Run fails: no gate, the answer comes
+		gc.release(s.sess[b])
+		s.sess[b] = nil
+		w.item(fmt.Sprintf("IRun (TSess %d)", b))
+		cls, err := w.recvNewProxyResp(b, k)
+		if err != nil {
+			w.fail("sched-no-newproxyresp", err.Error())
+			return
+		}
+		w.outs = append(w.outs, outRec{b, fmt.Sprintf("ONewProxyResp %d %d %d %d true", b, k, attB, cls)})
+		w.kind(fmt.Sprintf("newproxy-stcp-class-%d", cls))
+		s.expectClass(cls, 3, "duplicate-visitor-proxy-refused-in-run")
+		w.observe()
+		if !w.stcpListening(k) {
+			w.fail("monitor:refused-duplicate-removed-incumbent-listener",
+				fmt.Sprintf("after session %d's registration of %q was refused, visitors of session %d's proxy of that name are turned away", b, pname(k), a))
+		}
+		if !addFirst {
+			s.expectClass(s.regAdd(a, k, attA), 0, "incumbent-registration")
+			w.observe()
+		}
+		// a later duplicate is refused at Exist and changes nothing either
+		_, ok := s.regSendK(b, k, true)
+		if ok {
+			w.fail("monitor:registration-of-taken-name-not-refused", "duplicate passed Exist")
+			return
+		}
+		w.observe()
+		if !w.stcpListening(k) || w.s.Svc.VerifC12Names()[pname(k)] != tagOf(a) {
+			w.fail("monitor:incumbent-lost-name-or-listener", fmt.Sprintf("session %d no longer holds a working %q", a, pname(k)))
 		}
 	}},
 }
